@@ -454,7 +454,8 @@ impl<'a> Compiler<'a> {
                         .iter()
                         .take(depth)
                         .flat_map(|x| [x.as_ref(), "."])
-                        .chain([alias, ".", s.unwrap_or(suffix)].iter().copied())
+                        // the import without its `super.` prefixes, then the rest of the name
+                        .chain([s.unwrap_or(alias), ".", suffix].iter().copied())
                         .collect::<String>();
 
                     to = jump_table.get(&name);
